@@ -359,7 +359,7 @@ func (c *Ctx) placeholderSites(ro *ParserRoles) []ssa.Instruction {
 			return false
 		}
 		cal := calleeOf(call)
-		return cal != nil && c.inModule(cal) && (cal.Name() == "startPos" || cal.Name() == "getNodePos" || cal.Name() == "GetStartPos")
+		return cal != nil && c.inModule(cal) && (cal.Name() == "startPos" || cal.Name() == "getNodePos" || cal.Name() == "GetStartPos" || c.returnsStartPos(cal))
 	}
 	for _, f := range ro.Reach.Order {
 		var setPos, setEnd ssa.Value
